@@ -694,6 +694,12 @@ func (k *simk) exec(a *kactor, req *sysreq, fault *kfault) (ret uintptr, errno s
 			}
 			p.securebits = nb
 			return done(0, 0)
+		case syscall.PR_SET_PDEATHSIG:
+			setArgs("PR_SET_PDEATHSIG, %d", A[1])
+			if A[1] > 64 {
+				return done(-1, syscall.EINVAL)
+			}
+			return done(0, 0)
 		case unix.PR_SET_NO_NEW_PRIVS:
 			setArgs("PR_SET_NO_NEW_PRIVS, %d", A[1])
 			if A[1] != 1 {
